@@ -540,7 +540,15 @@ impl IntoClass for (&'static str, bool) {
     fn rebuild(self, state: &mut Self::State) {
         let (name, include) = self;
         let (class_list, prev_include, prev_name) = state;
-        if include != *prev_include {
+        if name != *prev_name {
+            // another class than the one toggled so far
+            if *prev_include {
+                Rndr::remove_class(class_list, prev_name);
+            }
+            if include {
+                Rndr::add_class(class_list, name);
+            }
+        } else if include != *prev_include {
             if include {
                 Rndr::add_class(class_list, name);
             } else {
